@@ -301,6 +301,11 @@ def gen_spec(seed: int, config: str | None = None) -> dict:
     payloads = []
     visual = entry in ("parproc_visual", "visual_legacy", "processing_loop")
     by_path = entry in FILE_ENTRIES  # the caller hands over file names; the library builds the payload objects
+    # the library's own StrPayload: a path string whose .path / .payload are computed on access (the text is read from the
+    # file, as UTF-8, every time somebody asks) - some of the files are not UTF-8; the function reads bytes itself
+    sp = random.Random(derive(seed, "strpayload"))
+    strp = entry in ("parproc", "parallel_proc") and sp.random() < 0.08
+    by_path = by_path or strp
     for k in range(n):
         p = {"key": k, "cls": "visual" if (visual or rng.random() < 0.3) else "plain", "behave": "ok",
              "value": rng.choice([k * 7, f"v{k}", [k, "x"], {"k": k}, None, 0, "", [[]], [], {}, False, 0.0]),
@@ -351,8 +356,14 @@ def gen_spec(seed: int, config: str | None = None) -> dict:
             p["raises_late"] = list(p["raises"])
             p["raises"] = [rng.choice(["OSError", "ZeroDivisionError", "CustomParseError"])]
         payloads.append(p)
+    if strp:
+        for p in payloads:
+            p["cls"] = "plain"
+            if sp.random() < 0.3:
+                p["latin1"] = True
     spec = {
         "property": PROP,
+        "strpayloads": strp,
         "config": config,
         "entry": entry,
         "pool": pool,
@@ -459,7 +470,7 @@ def canon(x):
 def build_payloads(spec: dict):
     _ensure_classes()
     out = []
-    if spec["entry"] in FILE_ENTRIES:
+    if spec["entry"] in FILE_ENTRIES or spec.get("strpayloads"):
         # legacy protocol: payloads are path strings of real files (read again by the summary)
         import os
 
@@ -468,11 +479,22 @@ def build_payloads(spec: dict):
         for p in spec["payloads"]:
             name = f"file{p['key']:02d}.txt"
             path = os.path.join("legacy", name)
-            if not os.path.exists(path):
+            if p.get("latin1"):
+                name = f"latin{p['key']:02d}.txt"
+                path = os.path.join("legacy", name)
+                if not os.path.exists(path):
+                    with open(path, "wb") as f:
+                        f.write(f"caf\xe9 {p['key']}\n".encode("latin-1"))
+            elif not os.path.exists(path):
                 with open(path, "w") as f:
                     f.write(f"line {p['key']}\n// c\n\n")
             _LEGACY[name] = p
-            out.append(path)
+            if spec.get("strpayloads"):
+                from tatsu.parproc.payload import StrPayload
+
+                out.append(StrPayload(path))
+            else:
+                out.append(path)
         return out
     first = {}
     for p in spec["payloads"]:
@@ -653,7 +675,7 @@ def _key_of_task(args):
     pl = getattr(args[0], "payload", None)
     k = getattr(pl, "key", None)
     if k is None and pl is not None and hasattr(pl, "path"):
-        m = __import__("re").search(r"file(\d+)\.txt$", str(pl.path))
+        m = __import__("re").search(r"(?:file|latin)(\d+)\.txt$", str(pl.path))
         k = int(m.group(1)) if m else None
     return k
 
@@ -663,12 +685,12 @@ def observe(r) -> tuple:
     key = getattr(r.payload, "key", None)
     if key is None and not isinstance(r.payload, (str, Path)) and hasattr(r.payload, "path"):
         # processing_loop: the payload object was built by the library from the file name; it must carry that file's text
-        m = __import__("re").search(r"file(\d+)\.txt$", str(r.payload.path))
+        m = __import__("re").search(r"(?:file|latin)(\d+)\.txt$", str(r.payload.path))
         key = int(m.group(1)) if m else None
         if key is not None and getattr(r.payload, "payload", None) != f"line {key}\n// c\n\n":
             key = f"{key}:wrong-text"
     if key is None and isinstance(r.payload, (str, Path)):
-        m = __import__("re").search(r"file(\d+)\.txt$", str(r.payload))  # legacy entry: the payload is given back as its path
+        m = __import__("re").search(r"(?:file|latin)(\d+)\.txt$", str(r.payload))  # legacy entry: the payload is given back as its path
         key = int(m.group(1)) if m else None
     exc = None
     if r.exception is not None:
@@ -1017,6 +1039,11 @@ def shrink_candidates(spec: dict):
     if spec["knobs"].get("consumer_think_ns"):
         s = copy.deepcopy(spec)
         del s["knobs"]["consumer_think_ns"]
+        yield s
+    if any(p.get("latin1") for p in ps):
+        s = copy.deepcopy(spec)
+        for p in s["payloads"]:
+            p.pop("latin1", None)
         yield s
     if spec["knobs"].get("caller_is_mp_child"):
         s = copy.deepcopy(spec)
